@@ -157,14 +157,78 @@ theorem default_tolerance (factor eps : FV) (sys : SysM) (raiseError : Bool) (p 
   simp only [hp, Option.map_some]
 
 theorem default_tolerance_formula (eps : FV) (sys : SysM) (fl st : List FV)
-    (hf : sys.flows.mapM (fun f => maxAbs f.arr) = some fl)
-    (hs : sys.stocks.mapM (fun s => maxAbs s.stock) = some st) :
+    (hf : sys.flows.mapM (fun f => magnitude f.arr) = some fl)
+    (hs : sys.stocks.mapM (fun s => magnitude s.stock) = some st) :
     absoluteFloatPrecision eps sys
       = some (eps * (if (pyMax st 0).gt (pyMax fl 0) then pyMax st 0 else pyMax fl 0)) := by
   unfold absoluteFloatPrecision
   have hz : Gen.toleranceDefaultsZero = true := by decide
   simp only [hf, hs, hz, Option.bind_eq_bind, Option.bind_some, Bool.not_true, Bool.false_and, Bool.false_eq_true,
     if_false]
+
+/-- the code as it stands leaves NaN entries aside when it scales the tolerance (regenerated) -/
+theorem source_tolerance_ignores_nan : Gen.toleranceIgnoresNan = true := by decide
+
+theorem pyMax_num : ∀ (l : List FV) (d : Rat), (∀ v ∈ l, ∃ q, v = .num q) → ∃ q, pyMax l (.num d) = .num q := by
+  intro l d h
+  cases l with
+  | nil => exact ⟨d, rfl⟩
+  | cons x xs =>
+    obtain ⟨q0, rfl⟩ := h x (by simp)
+    have hxs : ∀ v ∈ xs, ∃ q, v = FV.num q := fun v hv => h v (by simp [hv])
+    unfold pyMax
+    clear h
+    induction xs generalizing q0 with
+    | nil => exact ⟨q0, rfl⟩
+    | cons y ys ih =>
+      obtain ⟨qy, rfl⟩ := hxs y (by simp)
+      simp only [List.foldl_cons]
+      by_cases hg : (FV.num qy).gt (FV.num q0) = true
+      · rw [if_pos hg]; exact ih qy (fun v hv => hxs v (by simp [hv]))
+      · rw [if_neg hg]; exact ih q0 (fun v hv => hxs v (by simp [hv]))
+
+/-- the magnitude of an array is a number whatever the array holds -/
+theorem magnitude_num (a : FArr FV) : ∃ q, magnitude a = some (.num q) := by
+  unfold magnitude
+  rw [source_tolerance_ignores_nan, if_pos rfl]
+  unfold maxAbsNoNan
+  obtain ⟨q, hq⟩ := pyMax_num ((a.values.toList.filter (fun v => !v.isNan)).map FV.abs) 0 (by
+    intro v hv
+    obtain ⟨w, hw, rfl⟩ := List.mem_map.mp hv
+    have := (List.mem_filter.mp hw).2
+    cases w with
+    | num x => exact ⟨_, rfl⟩
+    | nan => simp [FV.isNan] at this)
+  exact ⟨q, by rw [show (0 : FV) = FV.num 0 from rfl, hq]⟩
+
+theorem mapM_magnitude {α : Type} (l : List α) (g : α → FArr FV) :
+    ∃ r, l.mapM (fun x => magnitude (g x)) = some r ∧ ∀ v ∈ r, ∃ q, v = FV.num q := by
+  induction l with
+  | nil => exact ⟨[], rfl, by simp⟩
+  | cons x xs ih =>
+    obtain ⟨r, hr, hall⟩ := ih
+    obtain ⟨q, hq⟩ := magnitude_num (g x)
+    refine ⟨.num q :: r, ?_, ?_⟩
+    · simp only [List.mapM_cons, hq, hr, Option.bind_eq_bind, Option.bind_some]; rfl
+    · intro v hv
+      rcases List.mem_cons.mp hv with rfl | h
+      · exact ⟨q, rfl⟩
+      · exact hall v h
+
+/-- **the default tolerance is a number, never NaN** — whatever NaN entries the flows and stocks hold
+(D33 before the repair: a NaN in the first flow made it NaN, every comparison with it came out False
+and negative entries of the other flows went unreported) -/
+theorem default_tolerance_is_a_number (e : Rat) (sys : SysM) :
+    ∃ q, absoluteFloatPrecision (.num e) sys = some (.num q) := by
+  obtain ⟨fl, hf, hfl⟩ := mapM_magnitude sys.flows (fun f => f.arr)
+  obtain ⟨st, hs, hst⟩ := mapM_magnitude sys.stocks (fun s => s.stock)
+  rw [default_tolerance_formula (.num e) sys fl st hf hs]
+  obtain ⟨a, ha⟩ := pyMax_num fl 0 hfl
+  obtain ⟨b, hb⟩ := pyMax_num st 0 hst
+  rw [show (0 : FV) = FV.num 0 from rfl, ha, hb]
+  by_cases hg : (FV.num b).gt (FV.num a) = true
+  · rw [if_pos hg]; exact ⟨e * b, rfl⟩
+  · rw [if_neg hg]; exact ⟨e * a, rfl⟩
 
 /-! ## decision logic of `check_flows` -/
 
